@@ -82,7 +82,7 @@ def canon(exec_lines):
     return '\n'.join(out)
 
 
-def run_net(prop, tier, seed, profiles, rule, assumptions, models=(), level='model_checking', dlimpl=(), satimpl=None, lraimpl=None, cache=None, release_too=False):
+def run_net(prop, tier, seed, profiles, rule, assumptions, models=(), level='model_checking', dlimpl=(), satimpl=None, lraimpl=None, cache=None, release_too=False, post=None):
     """profiles: list of (profile, executions_quick, executions_thorough, max_ops)"""
     ev = Evidence(prop, tier, seed, level)
     ev.cov['rule'] = rule
@@ -179,6 +179,8 @@ def run_net(prop, tier, seed, profiles, rule, assumptions, models=(), level='mod
         if lraimpl and not ev.violations:
             import lrareplay
             lrareplay.run(ev, prop, tier, lraimpl[0] if tier == 'quick' else lraimpl[1])
+        if post and not ev.violations:
+            post(ev, rd, tier, seed)
         ev.cov['distinct_nontrivial'] = len(distinct)
         ev.cov['executions_dropped_wide_numbers'] = dropped
     finally:
